@@ -544,7 +544,11 @@ protected:
         SegmentData(Segment &s) : slope(s.slope), intercept(s.intercept) {}
 
         inline size_t operator()(const K &origin, const K &k) const {
-            auto pos = int64_t(slope * (k - origin)) + intercept;
+            // A prediction for a key far away from the segment may exceed the range of int64_t, in which case the
+            // conversion would be undefined; for the callers any value larger than the number of elements is equivalent
+            constexpr double max_pos = 4611686018427387904.0; // 2^62
+            double p = slope * (k - origin);
+            auto pos = (p < max_pos ? int64_t(p) : int64_t(max_pos)) + intercept;
             return pos > 0 ? size_t(pos) : 0ull;
         }
     };
